@@ -291,6 +291,10 @@ def build(root: str) -> dict[str, list[list[str]]]:
                 augs = sorted({f'{_u(n.target)} {type(n.op).__name__}' for n in _own(node) if isinstance(n, ast.AugAssign)})
                 if augs:
                     shapes.setdefault('augs', {})[q] = augs
+                comps = sorted({n.targets[0].id for n in _own(node) if isinstance(n, ast.Assign) and len(n.targets) == 1 and isinstance(n.targets[0], ast.Name)
+                                and isinstance(n.value, (ast.ListComp, ast.DictComp))})
+                if comps:
+                    shapes.setdefault('comps', {})[q] = comps
                 cs = call_styles(node, sigs)
                 if cs:
                     shapes.setdefault('calls', {})[q] = cs
@@ -313,7 +317,7 @@ def table() -> dict[str, list[list[str]]]:
             with open(KNOWN) as fh:
                 d = json.load(fh)
                 _TABLE = d['functions']
-                _SHAPES = {'tests': d.get('tests', {}), 'compares': d.get('compares', {}), 'private': d.get('private', {}), 'calls': d.get('calls', {}), 'augs': d.get('augs', {})}
+                _SHAPES = {'tests': d.get('tests', {}), 'compares': d.get('compares', {}), 'private': d.get('private', {}), 'calls': d.get('calls', {}), 'augs': d.get('augs', {}), 'comps': d.get('comps', {})}
         except FileNotFoundError:
             _TABLE = {}
     return _TABLE
@@ -579,10 +583,57 @@ def _restore_augs(q: str, node: ast.AST, log: list[str]) -> None:
         log.append(f'{q}: {n_fix} update(s) `x = x op e` restored to the inventory form `x op= e`')
 
 
+def _restore_comps(q: str, node: ast.AST, log: list[str]) -> None:
+    """N12: `x = []` / `x = {}` directly followed by `for t in it: [if c:] x.append(e)` / `x[k] = v` -> the comprehension,
+    for locals the inventory function builds with a comprehension."""
+    rec = set(_SHAPES.get('comps', {}).get(q, []))
+    if not rec:
+        return
+    n_fix = 0
+    for owner in [node] + [n for n in _own(node) if not isinstance(n, (ast.FunctionDef, ast.AsyncFunctionDef, ast.ClassDef))]:
+        for fld in ('body', 'orelse', 'finalbody'):
+            blk = getattr(owner, fld, None)
+            if not (isinstance(blk, list) and len(blk) >= 2 and isinstance(blk[0], ast.stmt)):
+                continue
+            i = 0
+            while i + 1 < len(blk):
+                st, lp = blk[i], blk[i + 1]
+                if isinstance(st, ast.Assign) and len(st.targets) == 1 and isinstance(st.targets[0], ast.Name) and st.targets[0].id in rec \
+                        and isinstance(lp, ast.For) and not lp.orelse and len(lp.body) == 1:
+                    x = st.targets[0].id
+                    empty_list = isinstance(st.value, ast.List) and not st.value.elts
+                    empty_dict = isinstance(st.value, ast.Dict) and not st.value.keys
+                    inner = lp.body[0]
+                    ifs = []
+                    while isinstance(inner, ast.If) and not inner.orelse and len(inner.body) == 1:
+                        ifs.append(inner.test)
+                        inner = inner.body[0]
+                    comp = None
+                    gen = ast.comprehension(target=lp.target, iter=lp.iter, ifs=ifs, is_async=0)
+                    if empty_list and isinstance(inner, ast.Expr) and isinstance(inner.value, ast.Call) and isinstance(inner.value.func, ast.Attribute) \
+                            and inner.value.func.attr == 'append' and _u(inner.value.func.value) == x and len(inner.value.args) == 1 and not inner.value.keywords:
+                        comp = ast.ListComp(elt=inner.value.args[0], generators=[gen])
+                    elif empty_dict and isinstance(inner, ast.Assign) and len(inner.targets) == 1 and isinstance(inner.targets[0], ast.Subscript) \
+                            and _u(inner.targets[0].value) == x:
+                        comp = ast.DictComp(key=inner.targets[0].slice, value=inner.value, generators=[gen])
+                    uses_x = any(isinstance(n_, ast.Name) and n_.id == x for part in [lp.iter] + ifs + ([comp.elt] if isinstance(comp, ast.ListComp) else [comp.key, comp.value] if comp else [])
+                                 for n_ in ast.walk(part))
+                    if comp is not None and not uses_x:
+                        st.value = ast.copy_location(comp, st.value)
+                        ast.fix_missing_locations(st)
+                        del blk[i + 1]
+                        n_fix += 1
+                        continue
+                i += 1
+    if n_fix:
+        log.append(f'{q}: {n_fix} container-building loop(s) restored to the inventory comprehension')
+
+
 def _restore_shapes(q: str, node: ast.AST, log: list[str]) -> None:
     """Orientation of ==/!= comparisons and polarity of if/else, as recorded for the inventory function."""
     _restore_call_styles(q, node, log)
     _restore_augs(q, node, log)
+    _restore_comps(q, node, log)
     kc = set(_SHAPES.get('compares', {}).get(q, []))
     kt = set(_SHAPES.get('tests', {}).get(q, []))
     if not kc and not kt:
@@ -636,6 +687,6 @@ if __name__ == '__main__':
     t = build(root)
     json.dump({'comment': 'locals of the inventory functions in order of first binding, with spelling-free binding signatures; '
                           'texts of branch tests and of ==/!= comparisons (kfv/localnames.py)',
-               'functions': t, 'tests': shapes.get('tests', {}), 'compares': shapes.get('compares', {}), 'private': shapes.get('private', {}), 'calls': shapes.get('calls', {}), 'augs': shapes.get('augs', {})},
+               'functions': t, 'tests': shapes.get('tests', {}), 'compares': shapes.get('compares', {}), 'private': shapes.get('private', {}), 'calls': shapes.get('calls', {}), 'augs': shapes.get('augs', {}), 'comps': shapes.get('comps', {})},
               open(KNOWN, 'w'), indent=0, sort_keys=True)
     print(f'{len(t)} functions, {sum(len(v) for v in t.values())} locals')
